@@ -29,9 +29,15 @@ def judgeLine (j : J) (op : String) (outs : List String) : J × List String :=
   match words op with
   | ["case", n] => ({ caseId := n }, [])
   | "expect" :: ws => ({ j with expect := some ws }, [])
-  | "keys" :: _ =>
+  | "keys" :: ks =>
     match j.expect with
-    | none => (j, [])
+    | none =>
+      -- no statement list came with the keys: the model (proved equal to the quote-aware
+      -- statement splitter for every key sequence, `submit_exact`) is the oracle
+      let want := (run {} (ks.map natOr)).map showSubmit ++ ["end"]
+      if outs.any (· == "panic") then (j, [s!"VIOLATION case={j.caseId} sig=console:panic"])
+      else if outs == want then (j, [])
+      else (j, [s!"VIOLATION case={j.caseId} sig=console:submitted-differs expected=[{(" | ".intercalate want).take 300}] got=[{(" | ".intercalate outs).take 300}]"])
     | some e =>
       let got := outs.flatMap fun o => match words o with | "submit" :: ws => ws | _ => []
       if outs.any (· == "panic") then (j, [s!"VIOLATION case={j.caseId} sig=console:panic"])
